@@ -245,13 +245,44 @@ def materialize_of_locked():
     return len(subjects), bad
 
 
+def round_trips():
+    """A relation of an iteration engine transferred to another engine (an iteration engine, an SQL engine) and straight
+    back: the result has the rows of the original, in the original's order (the there-and-back pair is elided, so the
+    content never passes through the other engine) — whatever operation the relation ends in."""
+    from lsst.daf.relation import iteration, sql
+    a, b = K(1), K(2)
+    it0, it1, sq = iteration.Engine(name="rt_it0"), iteration.Engine(name="rt_it1"), sql.Engine(name="rt_sql")
+    leaf = it0.make_leaf({a, b}, payload=iteration.RowSequence([{a: 1, b: 5}, {a: 3, b: 1}, {a: 2, b: 5}, {a: 3, b: 1}]), name="rtL")
+    E = dr.ColumnExpression
+    srt = leaf.sorted([dr.SortTerm(E.reference(a), ascending=False)])
+    subjects = [("a leaf", leaf), ("a sort", srt), ("a sort by two terms", leaf.sorted([dr.SortTerm(E.reference(b)), dr.SortTerm(E.reference(a))])),
+                ("a selection over a sort", srt.with_rows_satisfying(E.reference(a).gt(E.literal(1)))),
+                ("a window of a sort", srt[1:3]), ("a deduplication of a sort", srt.without_duplicates()),
+                ("a projection of a sort", srt.with_only_columns({a})), ("a sort of a chain", leaf.chain(leaf).sorted([dr.SortTerm(E.reference(b))]))]
+    bad = []
+    for what, rel in subjects:
+        want = [dict(r) for r in it0.execute(rel)]
+        for other in (it1, sq):
+            try:
+                back = rel.transferred_to(other).transferred_to(it0)
+                got = [dict(r) for r in it0.execute(back)]
+            except Exception as e:  # noqa: BLE001
+                bad.append({"relation": what, "via": str(other), "problem": f"round trip raised {type(e).__name__}: {e}"})
+                continue
+            if got != want:
+                bad.append({"relation": what, "tree": str(rel), "via": str(other), "returned": str(back), "rows": jsonable(got),
+                            "rows_of_the_original": jsonable(want), "problem": "a transfer there and back changed the content"})
+    return 2 * len(subjects), bad
+
+
 def run(ctx):
     rng = random.Random(ctx.seed)
     s1 = core.s1(ctx, ["Slice"], "Properties.C15", THEOREMS, extra_targets=["Model/CheckStruct.vo"])
     cases, bad = make_cases(rng, ctx.tier)
     found = False
     nml, mlbad = materialize_of_locked()
-    for b in bad[:3] + mlbad[:2]:
+    nrt, rtbad = round_trips()
+    for b in bad[:3] + mlbad[:2] + rtbad[:2]:
         found |= ctx.failing_case({"kind": "locked-node-or-simplification", "case": b}, None)
     bits = {4: "a locked node (leaf or materialization) of an input reappears in the output with a different upstream tree"}
     summ = core.judge(ctx, cases, HDR, "check_locked", bits=bits)
